@@ -216,6 +216,10 @@ def refinit(h, final, kwargs, positional_key):
     state = {}
     for a in owner:
         if not init_flag[a]:
+            # never a constructor keyword, but (as for dataclasses) the instance still gets its own default
+            d = nearest_default(a)
+            if d is not None and by[owner[a]].get("ctor") != "handwritten":
+                state[a] = d
             continue
         hand = by[owner[a]].get("ctor") == "handwritten"
         if a in kw:
@@ -295,7 +299,12 @@ def judge(h, final, kwargs, positional_key):
         return out
     _, state, ov, hand_calls, saw = exp
     inst, log = got[1], got[2]
-    have = {k: v for k, v in vars(inst).items() if k in ATTRS}
+    have = {}
+    for k in ATTRS:  # what reading the attribute gives (the statement is about values, not about where they are stored)
+        try:
+            have[k] = getattr(inst, k)
+        except AttributeError:
+            pass
     if have != state:
         diff = sorted(k for k in set(have) | set(state) if have.get(k, "<missing>") != state.get(k, "<missing>"))
         out.append(violation(PROP, dict(sig, kind="wrong_attribute_values", attr=diff[0]),
